@@ -300,6 +300,9 @@ func setPtraceOption(pid int) error {
 // kill all tracee according to pids
 func killAll(pgid int) {
 	unix.Kill(-pgid, unix.SIGKILL)
+	// the process group does not exist until the child have called setsid,
+	// kill the child directly so that the signal is not lost during launch
+	unix.Kill(pgid, unix.SIGKILL)
 }
 
 // collect died child processes
